@@ -8,7 +8,7 @@
      an intact plain or compressed input -- C15).  Every fragmentation of the
      stream is such a source.  WHang (fuel) never occurs. *)
 From PP Require Import Warc.WarcDefs Warc.WarcProofs Compress.CompressDefs Compress.CompressProofs Warc.ParallelDefs Warc.ParallelProofs.
-From PP Require Import Warc.WarcCompressed Compress.ToyCodec.
+From PP Require Import Warc.WarcCompressed Compress.ToyCodec Warc.WarcIndependent.
 From Coq Require Import Permutation.
 Local Open Scope Z_scope.
 
@@ -124,6 +124,62 @@ Theorem C17_never_hangs :
       end.
 Proof. exact never_hangs_proof. Qed.
 Print Assumptions C17_never_hangs.
+
+(* What Read returns is a function of the bytes alone: if a stream read from one source
+   (any fragmentation obeying the contract) yields records recs, the same bytes read from
+   ANY other source yield exactly recs -- the accepted language is not described by a
+   grammar here (so also "Content-Length: -0" and the like are covered), every phase of
+   Read is shown to look at the stream only.  (The stream is shorter than the model's
+   allocation limit of 2^46 bytes.) *)
+Theorem C17_reading_is_a_function_of_the_bytes :
+  forall (rstate1 rstate2 : Type)
+         (rread1 : rstate1 -> N -> option (list Z * rstate1)) (rread2 : rstate2 -> N -> option (list Z * rstate2))
+         (rem1 : rstate1 -> list Z) (rem2 : rstate2 -> list Z) (rinv1 : rstate1 -> Prop) (rinv2 : rstate2 -> Prop),
+    rread_contract rstate1 rread1 rem1 rinv1 -> rread_contract rstate2 rread2 rem2 rinv2 ->
+    forall n1 fuel1 rs1 ov1 recs, rinv1 rs1 ->
+      warc_read_all rstate1 rread1 n1 fuel1 rs1 ov1 = AllOk recs ->
+      forall n2 fuel2 rs2 ov2, rinv2 rs2 -> ov2 ++ rem2 rs2 = ov1 ++ rem1 rs1 ->
+        Z.of_nat (length (ov1 ++ rem1 rs1)) < alloc_limit ->
+        (length recs < n2)%nat -> (length (ov1 ++ rem1 rs1) + 1 < fuel2)%nat ->
+        warc_read_all rstate2 rread2 n2 fuel2 rs2 ov2 = AllOk recs.
+Proof. exact read_all_agree. Qed.
+Print Assumptions C17_reading_is_a_function_of_the_bytes.
+
+(* re-framing: the records a successful read returned, written out one after the other
+   (what an identity child does with them) and read again from any source -- e.g. the pipe
+   from the child, in whatever pieces it delivers -- come back as the same records.  No
+   well-formedness premise: acceptance by the first reader is enough. *)
+Theorem C17_reframing_is_exact :
+  forall (rstate1 rstate2 : Type)
+         (rread1 : rstate1 -> N -> option (list Z * rstate1)) (rread2 : rstate2 -> N -> option (list Z * rstate2))
+         (rem1 : rstate1 -> list Z) (rem2 : rstate2 -> list Z) (rinv1 : rstate1 -> Prop) (rinv2 : rstate2 -> Prop),
+    rread_contract rstate1 rread1 rem1 rinv1 -> rread_contract rstate2 rread2 rem2 rinv2 ->
+    forall n1 fuel1 rs1 ov1 recs, rinv1 rs1 ->
+      warc_read_all rstate1 rread1 n1 fuel1 rs1 ov1 = AllOk recs ->
+      forall n2 fuel2 rs2, rinv2 rs2 -> rem2 rs2 = concat recs ->
+        Z.of_nat (length (concat recs)) < alloc_limit ->
+        (length recs < n2)%nat -> (length (concat recs) + 1 < fuel2)%nat ->
+        warc_read_all rstate2 rread2 n2 fuel2 rs2 [] = AllOk recs.
+Proof.
+  intros rstate1 rstate2 rread1 rread2 rem1 rem2 rinv1 rinv2 S1 S2 n1 fuel1 rs1 ov1 recs Hi1 H n2 fuel2 rs2 Hi2 Hr Hal Hn Hf.
+  destruct (success_is_exact_proof rstate1 rread1 rem1 rinv1 S1 n1 fuel1 rs1 ov1 recs Hi1 H) as [Hc _].
+  rewrite Hc in *.
+  apply (read_all_agree rstate1 rstate2 rread1 rread2 rem1 rem2 rinv1 rinv2 S1 S2 n1 fuel1 rs1 ov1 recs Hi1 H); auto.
+Qed.
+Print Assumptions C17_reframing_is_exact.
+
+(* it applies to a stream outside wf_record: "Content-Length: -0" is accepted (strtoll takes
+   the sign, the value is not negative) whole and byte by byte, with the same result *)
+Definition ex_rec_minus0 : list Z :=
+  [87;65;82;67;47;49;46;48;10;  67;111;110;116;101;110;116;45;76;101;110;103;116;104;58;32;45;48;10;  10;  13;10;13;10].
+Example C17_nonvacuous_minus_zero :
+  warc_file 5 200 [ex_rec_minus0] = AllOk [ex_rec_minus0] /\
+  warc_file 5 200 (map (fun b => [b]) ex_rec_minus0) = AllOk [ex_rec_minus0].
+Proof. vm_compute. split; reflexivity. Qed.
+
+Lemma C15_gzcompress_roundtrip_toy : forall r : list Z,
+  exists f0 out, (forall fuel, (f0 <= fuel)%nat -> gz_compress unit tenc tenew tecall fuel tt r = FileOk out) /\ tmember KGz out r.
+Proof. intros r. exact (gzcompress_proof unit tenc tenew tecall tmember TEInv tepend toy_enew_inv toy_run_contract toy_finish_contract tt r). Qed.
 
 (* ---- warc_parallel (Warc/ParallelDefs.v): an executable transition system with one label
    per thread -- the reader threads (Read + ProduceSwap into the bounded queue, whose ring
@@ -279,6 +335,31 @@ Proof.
     repeat (destruct i as [|i]; try reflexivity); repeat (destruct w as [|w]; try reflexivity).
 Qed.
 
+(* the premises of C17_parallel_gzip_members can be met: the toy gzip codec of
+   Compress/ToyCodec.v (magic, [1; b] per byte, [0]) obeys the encoder contract, and its
+   GZCompress result is a function of the record -- a closed instance *)
+Definition toy_gz (r : rec) : list Z := magic_of KGz ++ ToyCodec.enc r ++ [0].
+Theorem C17_parallel_gzip_contract_satisfiable :
+  forall (inputs : list (list rec)) (N cap : nat) (ls : list plabel) (s : pstate),
+    (0 < N)%nat -> (0 < cap)%nat -> Forall (Forall nonempty) inputs ->
+    run (ParallelDefs.pstep toy_gz) (pinit inputs N cap) ls = Some s -> (forall l, ParallelDefs.pstep toy_gz s l = None) ->
+    pterminated s = true /\
+    exists perm, Permutation perm (concat inputs) /\ p_stdout s = concat (map toy_gz perm) /\
+                 kstream tmember KGz (p_stdout s) (concat perm).
+Proof.
+  intros inputs N cap ls s HN Hc Hne Hr Hst.
+  destruct (C17_parallel_gzip_members unit tenc tenew tecall tmember TEInv tepend toy_enew_inv toy_run_contract toy_finish_contract
+              tt toy_gz) with (inputs := inputs) (N := N) (cap := cap) (ls := ls) (s := s) as [T [perm [P1 [P2 [_ P4]]]]]; auto.
+  - intros r. destruct (C15_gzcompress_roundtrip_toy r) as [f0 [out [H1 H2]]]. exists f0. intros fuel Hf.
+    rewrite (H1 fuel Hf). unfold tmember in H2. rewrite H2. reflexivity.
+  - split; [exact T|]. exists perm. auto.
+Qed.
+Print Assumptions C17_parallel_gzip_contract_satisfiable.
+
+Example C17_nonvacuous_gzcompress_model :
+  gz_compress unit tenc tenew tecall 200 tt [5; 6] = FileOk (toy_gz [5; 6]).
+Proof. vm_compute. reflexivity. Qed.
+
 (* ---- the broken-framing classes one by one (each: a format error from Read,
    for every source / fragmentation; none of them resynchronises) *)
 (* no version line: the first line (CR allowed) is not "WARC/1.0" *)
@@ -321,6 +402,35 @@ Theorem C17_bad_terminator_is_error :
       warc_read rstate rread fuel rs ov = RecErr rstate WFormat.
 Proof. exact bad_terminator_is_error_proof. Qed.
 Print Assumptions C17_bad_terminator_is_error.
+
+(* the premises of C17_bad_version_is_error and C17_bad_terminator_is_error can be met, and the
+   executable model gives the announced error on such streams (whole and byte by byte) *)
+Example C17_nonvacuous_bad_version :
+  let vline := [87;65;82;67;47;49;46;49;13] in      (* "WARC/1.1" CR *)
+  no10 vline /\ strip_cr_end vline <> warc_version /\
+  warc_file 5 200 [vline ++ 10 :: skipn 9 ex_rec2] = AllErr WFormat [] /\
+  warc_file 5 200 (map (fun b => [b]) (vline ++ 10 :: skipn 9 ex_rec2)) = AllErr WFormat [].
+Proof.
+  split; [repeat constructor; lia|]. split; [vm_compute; discriminate|]. vm_compute. split; reflexivity.
+Qed.
+
+Example C17_nonvacuous_bad_terminator :
+  let vline := [87;65;82;67;47;49;46;48] in
+  let hs := [[67;111;110;116;101;110;116;45;76;101;110;103;116;104;58;50]] in    (* Content-Length:2 *)
+  let body := [104; 105] in let term := [13;10;13;13] in
+  let r := vline ++ [10] ++ lines_bytes hs ++ [] ++ [10] ++ body ++ term in
+  no10 vline /\ strip_cr_end vline = warc_version /\ hdrs false hs (length body) /\
+  Z.of_nat (length r) < alloc_limit /\ length term = 4%nat /\ term <> warc_trailer /\
+  warc_file 5 200 [r ++ ex_rec2] = AllErr WFormat [] /\
+  warc_file 5 200 (map (fun b => [b]) (r ++ ex_rec2)) = AllErr WFormat [].
+Proof.
+  cbv zeta. split; [repeat constructor; lia|]. split; [reflexivity|]. split.
+  - apply hdrs_cl; [|constructor].
+    exists [67;111;110;116;101;110;116;45;76;101;110;103;116;104;58], [], false, [50], false.
+    repeat split; try reflexivity; try (repeat constructor; lia); try discriminate;
+      try (vm_compute; discriminate).
+  - split; [vm_compute; reflexivity|]. split; [reflexivity|]. split; [discriminate|]. vm_compute. split; reflexivity.
+Qed.
 
 Example C17_nonvacuous_bad_header :
   (* "X: y" then a blank line: Content-Length missing;  CL, then "content-length: 9": duplicate *)
